@@ -96,21 +96,28 @@ def enc_op(op):
     raise AssertionError(op)
 
 
-def cond_of(k):
+def cond_of(k, wide=False):
+    rep = 2 if wide else 1
     if k >= 0:
-        c = chr(k)
+        c = chr(k) * rep
         return lambda x: x == c
-    c = chr(-k)
+    c = chr(-k) * rep
     return lambda x: x != c
 
 
 def mkbuf(seq, token_backed):
+    if token_backed == 2:
+        # items longer than one character: every item is its character doubled,
+        # so that joined results can be decoded back into items (the model's
+        # items are abstract; what matters is that the code must count ITEMS,
+        # not characters)
+        return impl.Buffer(iter([impl.Token(c * 2, 10 + 3 * i) for i, c in enumerate(seq)]))
     if token_backed:
         return impl.Buffer(iter([impl.Token(c, 10 + 3 * i) for i, c in enumerate(seq)]))
     return impl.Buffer(seq)
 
 
-def enc_value(kind, v):
+def enc_value(kind, v, wide=False):
     if v is None:
         return [2]
     if isinstance(v, bool):
@@ -118,6 +125,10 @@ def enc_value(kind, v):
     if isinstance(v, int):
         return [5, v]
     s = str(v)
+    if wide:
+        if len(s) % 2 or any(s[i] != s[i + 1] for i in range(0, len(s), 2)):
+            return [81, len(s)]          # not a concatenation of doubled items
+        s = s[0::2]
     if kind in ('next', 'peek', 'getitem'):
         if len(s) != 1:
             return [80, len(s)]          # an item must be one character here
@@ -125,7 +136,7 @@ def enc_value(kind, v):
     return [3, len(s)] + [ord(c) for c in s]
 
 
-def apply_op(b, op):
+def apply_op(b, op, wide=False):
     k = op[0]
     try:
         if k == 'next':
@@ -149,14 +160,14 @@ def apply_op(b, op):
         elif k == 'endswith':
             v = b.endswith(op[1])
         elif k == 'forward_until':
-            v = b.forward_until(cond_of(op[1]))
+            v = b.forward_until(cond_of(op[1], wide))
         elif k == 'num_forward_until':
-            v = b.num_forward_until(cond_of(op[1]))
+            v = b.num_forward_until(cond_of(op[1], wide))
         elif k == 'position':
             v = b.position
         else:
             raise AssertionError(op)
-        return enc_value(k, v)
+        return enc_value(k, v, wide)
     except StopIteration:
         return [6, 1]
     except impl.Watchdog:
@@ -170,7 +181,7 @@ def run_impl(seq, ops, tb):
     b = mkbuf(seq, tb)
     out = []
     for op in ops:
-        out += apply_op(b, op)
+        out += apply_op(b, op, tb == 2)
         out += [b.position, len(b._Buffer__queue)]
     return out
 
@@ -310,7 +321,19 @@ def run(prop, tier):
     for _ in range(nrand):
         seq = ''.join(rng.choice('abc') for _ in range(rng.randint(0, 9)))
         ops = tuple(random_op(rng, len(seq)) for _ in range(rng.randint(4, 30)))
-        rnd.append((seq, ops, rng.random() < 0.5))
+        tb = rng.choice([False, True, 2])
+        if tb == 2:
+            ops = tuple(o for o in ops if o[0] not in ('startswith', 'endswith'))
+        rnd.append((seq, ops, tb))
+    wide_ops = [o for o in OPS_CORE if o[0] not in ('startswith', 'endswith')]
+    nw = 0
+    for seq in s3:
+        for first in wide_ops:
+            jobs.append((prop, seq, 2, first, wide_ops, 2))
+            nw += len(wide_ops)
+    nex += nw
+    notes.append('wide items (each item two characters long, token-backed): every sequence of 2 '
+                 'operations from %d operations x %d item sequences = %d cases' % (len(wide_ops), len(s3), nw))
     parts = pmap(_exh_chunk, jobs) + pmap(_list_chunk, [(prop, c) for c in chunked(rnd, NPROC * 2)])
     for p in parts:
         r.evaluations += p.evaluations
